@@ -1983,7 +1983,7 @@ where
                 N
             };
 
-            let (right, left) = self.slices_uninit_mut();
+            let (right, _) = self.slices_uninit_mut();
 
             let write_len = core::cmp::min(right.len(), other.len());
             #[cfg(feature = "unstable")]
@@ -1991,7 +1991,14 @@ where
             #[cfg(not(feature = "unstable"))]
             write_uninit_slice_cloned(&mut right[..write_len], &other[..write_len]);
 
+            // The elements cloned so far become part of the buffer right away, so that they get
+            // dropped with the buffer (instead of being leaked) if cloning one of the remaining
+            // elements panics
+            self.size += write_len;
+
+            // The rest of `other` (if any) goes to the free slots at the beginning of the array
             let other = &other[write_len..];
+            let (left, _) = self.slices_uninit_mut();
             debug_assert!(left.len() >= other.len());
             let write_len = other.len();
             #[cfg(feature = "unstable")]
@@ -1999,7 +2006,8 @@ where
             #[cfg(not(feature = "unstable"))]
             write_uninit_slice_cloned(&mut left[..write_len], other);
 
-            self.size = final_size;
+            self.size += write_len;
+            debug_assert_eq!(self.size, final_size);
         } else {
             // `other` overwrites the whole buffer; get only the last `N` elements from `other` and
             // overwrite
